@@ -2,10 +2,6 @@
     simulation, with the typed invariant [TyV] (class / def tables aligned with the model's name maps, typed locals)
     carried by [Pre]; new: [sid_typed], [simple_typed], [typed_some], [sufs_sim] (the suffix loop), [value_typed].
     Copy of ScopeSim.v, extended; the untyped development stays as it is. *)
-(** ScopeSim: the indexer model agrees with the declarative resolver ScopeSpec on the fragment [frag_*]:
-    the (ghost) log of resolved uses the model produces is exactly the list of uses the specification
-    computes, each with the declaration the specification assigns, and no "not found" diagnostic is emitted,
-    for every well-scoped program of the fragment.  Part 1: values. *)
 From Coq Require Import List NArith Bool Lia Arith.
 From TG.Model Require Import CoreAst Scope BangOps Indexer .
 From TG.Model Require Import ScopeSpecT.
@@ -221,18 +217,99 @@ Qed.
 
 (** ---------------------------------------------------------------------------------------------
     types: what the specification records about the type of a declaration vs the type the model computes *)
-Definition TYPm (s : st) (t : mty) (ty : sty) : Prop :=
+Fixpoint TYPn (nc nd : list (name * N)) (t : mty) (ty : sty) : Prop :=
   match ty with
   | TUnk => True
-  | TCls k => exists n0 cid n1, nth_decl (s_nclass s) k = Some (n0, cid) /\ t = MRecord cid n1
-  | TDef k => exists n0 did n1, nth_decl (s_ndef s) k = Some (n0, did) /\ t = MRecord did n1
+  | TCls k => exists n0 cid n1, nth_decl nc k = Some (n0, cid) /\ t = MRecord cid n1
+  | TDef k => exists n0 did n1, nth_decl nd k = Some (n0, did) /\ t = MRecord did n1
+  | TList ty' => exists t', t = MList t' /\ TYPn nc nd t' ty'
   end.
+Definition TYPm (s : st) (t : mty) (ty : sty) : Prop := TYPn (s_nclass s) (s_ndef s) t ty.
 (** a local declaration (always a leaf) has the recorded type *)
 Definition TYPS (s : st) (sym : symid) (ty : sty) : Prop :=
   match ty with
   | TUnk => True
   | _ => exists id lf, sym = SyLeaf id /\ nthN (s_leaves s) id = Some lf /\ lf_kind lf <> LDefm /\ TYPm s (lf_ty lf) ty
   end.
+(** ---- growth: leaves are only appended, class and def names only added in front *)
+Definition GRW (s s' : st) : Prop :=
+  (exists ext, s_leaves s' = s_leaves s ++ ext) /\ (exists pre, s_nclass s' = pre ++ s_nclass s) /\
+  (exists pre, s_ndef s' = pre ++ s_ndef s).
+Lemma GRW_refl : forall s, GRW s s.
+Proof. intros s. split; [exists []; now rewrite app_nil_r|]. split; exists []; reflexivity. Qed.
+Lemma GRW_trans : forall a b c, GRW a b -> GRW b c -> GRW a c.
+Proof.
+  intros a b c ([x1 A1] & [y1 A2] & [z1 A3]) ([x2 B1] & [y2 B2] & [z2 B3]). split; [|split].
+  - exists (x1 ++ x2). now rewrite B1, A1, app_assoc.
+  - exists (y2 ++ y1). now rewrite B2, A2, app_assoc.
+  - exists (z2 ++ z1). now rewrite B3, A3, app_assoc.
+Qed.
+Lemma nth_decl_app : forall V (pre l : list (name * V)) k x, nth_decl l k = Some x -> nth_decl (pre ++ l) k = Some x.
+Proof.
+  intros V pre l k x H. unfold nth_decl in *. rewrite app_length.
+  destruct (Nat.ltb_spec k (length l)) as [E|E]; [|discriminate].
+  destruct (Nat.ltb_spec k (length pre + length l)); [|lia].
+  rewrite nth_error_app2 by lia. replace (length pre + length l - S k - length pre)%nat with (length l - S k)%nat by lia.
+  exact H.
+Qed.
+Lemma TYPm_GRW : forall s s' t ty, GRW s s' -> TYPm s t ty -> TYPm s' t ty.
+Proof.
+  intros s s' t ty (_ & [p1 Hc] & [p2 Hd]). revert t. induction ty as [|k|k|ty' IH]; intros t H; simpl in *; [exact I| | |].
+  - destruct H as (n0 & cid & n1 & A & B). exists n0, cid, n1. split; [|exact B]. rewrite Hc. now apply nth_decl_app.
+  - destruct H as (n0 & did & n1 & A & B). exists n0, did, n1. split; [|exact B]. rewrite Hd. now apply nth_decl_app.
+  - destruct H as (t' & A & B). exists t'. split; [exact A|now apply IH].
+Qed.
+(** [TYPS] in a form that does not depend on the shape of the type *)
+Lemma TYPS_iff : forall s sym ty,
+    TYPS s sym ty <-> (ty = TUnk \/ exists id lf, sym = SyLeaf id /\ nthN (s_leaves s) id = Some lf /\ lf_kind lf <> LDefm /\
+                                                  TYPm s (lf_ty lf) ty).
+Proof.
+  intros s sym ty. destruct ty; simpl; split; intros H; try (now left); try (now right); try exact I;
+    destruct H as [H|H]; try discriminate; exact H.
+Qed.
+Lemma TYPS_map : forall s s' sym ty,
+    (forall t, TYPm s t ty -> TYPm s' t ty) -> (exists ext, s_leaves s' = s_leaves s ++ ext) ->
+    TYPS s sym ty -> TYPS s' sym ty.
+Proof.
+  intros s s' sym ty Hm [ext Hl] H. apply TYPS_iff in H. apply TYPS_iff. destruct H as [H|(id & lf & A & B & K & C)]; [now left|].
+  right. exists id, lf. split; [exact A|]. split; [rewrite Hl; now apply nthN_app_some|]. split; [exact K|now apply Hm].
+Qed.
+Lemma TYPS_GRW : forall s s' sym ty, GRW s s' -> TYPS s sym ty -> TYPS s' sym ty.
+Proof.
+  intros s s' sym ty G H. pose proof G as (Hl & _).
+  apply (TYPS_map s s'); auto. intros t. now apply TYPm_GRW.
+Qed.
+
+(** the types [ft] the specification records for the fields of a class are those of the leaves [find_field] finds *)
+Definition FLDT (s : st) (cid : N) (ft : list (name * sty)) : Prop :=
+  forall nm fid ty, find_field (rec_fuel s) (s_recs s) cid nm = Some fid -> lookup nm ft = Some ty -> TYPS s (SyLeaf fid) ty.
+Lemma FLDT_nil : forall s cid, FLDT s cid [].
+Proof. intros s cid nm fid ty _ H. discriminate. Qed.
+Lemma FLDT_mono : forall s s' cid ft b,
+    FLDT s cid ft -> REC (s_recs s) -> cid < b ->
+    (forall id, id < b -> nthN (s_recs s') id = nthN (s_recs s) id) ->
+    nthN (s_recs s) cid <> None -> GRW s s' -> FLDT s' cid ft.
+Proof.
+  intros s s' cid ft b H HR Hb Hag Hv G nm fid ty Hf Hl.
+  assert (V1 : (N.to_nat cid < length (s_recs s))%nat).
+  { destruct (nthN (s_recs s) cid) eqn:E; [|congruence]. eapply nthN_some_lt; eassumption. }
+  assert (V2 : (N.to_nat cid < length (s_recs s'))%nat).
+  { rewrite <- (Hag cid Hb) in Hv. destruct (nthN (s_recs s') cid) eqn:E; [|congruence]. eapply nthN_some_lt; eassumption. }
+  unfold rec_fuel in *.
+  rewrite (ff_agree (s_recs s) (s_recs s') nm b HR Hag _ cid Hb) in Hf.
+  rewrite (ff_fuel (s_recs s) nm HR (S (length (s_recs s'))) (S (length (s_recs s))) cid) in Hf by lia.
+  apply (TYPS_GRW s s'); [exact G|]. eapply H; eassumption.
+Qed.
+Lemma FLDT_same_recs : forall s s' cid ft,
+    FLDT s cid ft -> s_recs s' = s_recs s -> GRW s s' -> FLDT s' cid ft.
+Proof.
+  intros s s' cid ft H Hr G nm fid ty Hf Hl. unfold rec_fuel in *. rewrite Hr in Hf.
+  apply (TYPS_GRW s s'); [exact G|]. eapply H; eassumption.
+Qed.
+Lemma GRW_same : forall s s', s_nclass s' = s_nclass s -> s_ndef s' = s_ndef s ->
+    (exists ext, s_leaves s' = s_leaves s ++ ext) -> GRW s s'.
+Proof. intros s s' A B C. split; [exact C|]. split; exists []; simpl; assumption. Qed.
+
 Definition TL (e : env) (s : st) : Prop :=
   forall nm sym ty, find_local s nm = Some sym -> first_some (tframe_lookup nm) (e_tfr e) = Some ty -> TYPS s sym ty.
 (** classes: the class table of the environment and the class names of the model are the same list of names, in
@@ -240,8 +317,11 @@ Definition TL (e : env) (s : st) : Prop :=
     body is open ([o]), whose table is still empty *)
 Definition CR (o : option N) (s : st) (tb : list (name * rng)) (id : N) : Prop :=
   nthN (s_recs s) id <> None /\ (o <> Some id -> FLD s id tb) /\ (o = Some id -> tb = []).
+(** ... and its fields have the types the environment records *)
+Definition CRT (o : option N) (s : st) (ci : cinfo) (id : N) : Prop :=
+  CR o s (ci_fields ci) id /\ (o <> Some id -> FLDT s id (ci_ftys ci)).
 Definition CF2 (o : option N) (e : env) (s : st) : Prop :=
-  Forall2 (fun a b => fst a = fst b /\ CR o s (ci_fields (snd a)) (snd b)) (e_cls e) (s_nclass s).
+  Forall2 (fun a b => fst a = fst b /\ CRT o s (snd a) (snd b)) (e_cls e) (s_nclass s).
 Definition DF2 (o : option N) (e : env) (s : st) : Prop :=
   Forall2 (fun a b => fst a = fst b /\ CR o s (snd a) (snd b) /\
                       (forall r, nthN (s_recs s) (snd b) = Some r -> rc_class r = false)) (e_dtbl e) (s_ndef s) /\
@@ -292,27 +372,33 @@ Proof.
 Qed.
 Lemma TYPm_VR : forall s s' t ty, VR s s' -> TYPm s t ty -> TYPm s' t ty.
 Proof.
-  intros s s' t ty (_ & _ & Hc & Hd & _) H. destruct ty; simpl in *; [exact I| |].
+  intros s s' t ty (_ & _ & Hc & Hd & _). revert t. induction ty as [|k|k|ty' IH]; intros t H; simpl in *; [exact I| | |].
   - destruct H as (n0 & cid & n1 & A & B). exists n0, cid, n1. now rewrite Hc.
   - destruct H as (n0 & did & n1 & A & B). exists n0, did, n1. now rewrite Hd.
+  - destruct H as (t' & A & B). exists t'. split; [exact A|now apply IH].
 Qed.
 Lemma TYPS_VR : forall s s' sym ty, VR s s' -> TYPS s sym ty -> TYPS s' sym ty.
 Proof.
-  intros s s' sym ty V H. pose proof V as (_ & _ & _ & _ & _ & _ & _ & [ext Hl]).
-  destruct ty as [|k|k]; simpl in *; [exact I| |]; destruct H as (id & lf & A & B & K & C); exists id, lf.
-  - split; [exact A|]. split; [rewrite Hl; now apply nthN_app_some|]. split; [exact K|]. exact (TYPm_VR s s' (lf_ty lf) (TCls k) V C).
-  - split; [exact A|]. split; [rewrite Hl; now apply nthN_app_some|]. split; [exact K|]. exact (TYPm_VR s s' (lf_ty lf) (TDef k) V C).
+  intros s s' sym ty V H. pose proof V as (_ & _ & _ & _ & _ & _ & _ & Hl).
+  apply (TYPS_map s s'); auto. intros t. now apply TYPm_VR.
 Qed.
 Lemma CR_VR : forall o s s' tb id, VR s s' -> CR o s tb id -> CR o s' tb id.
 Proof.
   intros o s s' tb id (Hr & _ & _ & _ & _ & _ & _ & Hl) (A & B & C). split; [now rewrite Hr|]. split; [|exact C].
   intros Ho. apply (FLD_same_recs s s'); auto.
 Qed.
+Lemma GRW_VR : forall s s', VR s s' -> GRW s s'.
+Proof. intros s s' (_ & _ & Hc & Hd & _ & _ & _ & Hl). now apply GRW_same. Qed.
+Lemma CRT_VR : forall o s s' ci id, VR s s' -> CRT o s ci id -> CRT o s' ci id.
+Proof.
+  intros o s s' ci id V [A B]. split; [now apply (CR_VR o s s')|].
+  intros Ho. pose proof V as (Hr & _). apply (FLDT_same_recs s s'); auto. now apply GRW_VR.
+Qed.
 Lemma TyV_VR : forall o e s s', TyV o e s -> VR s s' -> s_scopes s' = s_scopes s -> TyV o e s'.
 Proof.
   intros o e s s' (C & [D1 D2] & T & W) V Hs. pose proof V as (Hr & Hm & Hc & Hd & _).
   split; [|split; [split|split]].
-  - unfold CF2 in *. rewrite Hc. eapply Forall2_imp; [|exact C]. intros a b [X Y]. split; [exact X|now apply (CR_VR o s s')].
+  - unfold CF2 in *. rewrite Hc. eapply Forall2_imp; [|exact C]. intros a b [X Y]. split; [exact X|now apply (CRT_VR o s s')].
   - rewrite Hd. eapply Forall2_imp; [|exact D1]. intros a b (X & Y & Z). split; [exact X|]. split; [now apply (CR_VR o s s')|].
     now rewrite Hr.
   - exact D2.
@@ -627,17 +713,16 @@ Proof.
   destruct (globals_add_var0 e n r) as (G1 & G2 & G3).
   split; [|split; [split|split]].
   - unfold CF2. simpl. rewrite G1, Hc. eapply Forall2_imp; [|exact C].
-    intros a b [X Y]. split; [exact X|now apply (CR_VR o s _ _ _ V)].
+    intros a b [X Y]. split; [exact X|now apply (CRT_VR o s _ _ _ V)].
   - simpl. rewrite G2, Hd. eapply Forall2_imp; [|exact D1].
     intros a b (X & Y & Z). split; [exact X|]. split; [now apply (CR_VR o s _ _ _ V)|]. now rewrite Hr.
   - simpl. now rewrite G2, G3.
   - intros nm sym ty H1 H2. rewrite (find_local_with_var0 s l c t nm Hs) in H1.
     rewrite tlocal_tset_var, e_tfr_add_var in H2. destruct (e_tfr e) as [|tf tt] eqn:Et; [discriminate|].
     rewrite Hn in H1. destruct (name_eqb nm n).
-    + injection H1 as <-. injection H2 as <-. destruct sty as [|k|k]; simpl; [exact I| |];
-        exists (lenN (s_leaves s)), l; (split; [reflexivity|]); (split; [rewrite Hl; apply nthN_app_last|]); (split; [exact Hk|]).
-      * exact (TYPm_VR s _ (lf_ty l) (TCls k) V Hty).
-      * exact (TYPm_VR s _ (lf_ty l) (TDef k) V Hty).
+    + injection H1 as <-. injection H2 as <-. apply TYPS_iff. right.
+      exists (lenN (s_leaves s)), l. split; [reflexivity|]. split; [rewrite Hl; apply nthN_app_last|]. split; [exact Hk|].
+      exact (TYPm_VR s _ (lf_ty l) sty V Hty).
     + apply (TYPS_VR s _ sym ty V). apply (T nm sym ty H1). now rewrite Et.
   - intros nm. rewrite (find_local_with_var0 s l c t nm Hs), Hn.
     change (e_frames (tset_var (add_var e n r) n sty)) with (e_frames (add_var e n r)).
@@ -655,10 +740,9 @@ Proof.
   intros nm sym ty H1 H2. rewrite (find_local_with_var0 s l c t nm Hs) in H1.
   rewrite tlocal_tset_var, e_tfr_add_var in H2. destruct (e_tfr e) as [|tf tt] eqn:Et; [discriminate|].
   rewrite Hn in H1. destruct (name_eqb nm n).
-  - injection H1 as <-. injection H2 as <-. destruct sty as [|k|k]; simpl; [exact I| |];
-      exists (lenN (s_leaves s)), l; (split; [reflexivity|]); (split; [rewrite Hl; apply nthN_app_last|]); (split; [exact Hk|]).
-    + exact (TYPm_VR s _ (lf_ty l) (TCls k) V Hty).
-    + exact (TYPm_VR s _ (lf_ty l) (TDef k) V Hty).
+  - injection H1 as <-. injection H2 as <-. apply TYPS_iff. right.
+    exists (lenN (s_leaves s)), l. split; [reflexivity|]. split; [rewrite Hl; apply nthN_app_last|]. split; [exact Hk|].
+    exact (TYPm_VR s _ (lf_ty l) sty V Hty).
   - apply (TYPS_VR s _ sym ty V). apply (T nm sym ty H1). now rewrite Et.
 Qed.
 Lemma same_untyped_tset_var : forall e n ty,
@@ -945,13 +1029,23 @@ Lemma fields_of_model : forall o e s ty tb t,
     CF2 o e s -> DF2 o e s -> fields_of e ty = Some tb -> TYPm s t ty ->
     exists id n1, t = MRecord id n1 /\ CR o s tb id.
 Proof.
-  intros o e s ty tb t C [D1 D2] Hf Ht. destruct ty as [|k|k]; simpl in *; [discriminate| |].
+  intros o e s ty tb t C [D1 D2] Hf Ht. destruct ty as [|k|k|ty']; simpl in *; [discriminate| | |discriminate].
   - destruct (nth_decl (e_cls e) k) as [[n ci]|] eqn:E; [|discriminate]. simpl in Hf. injection Hf as <-.
     destruct Ht as (n0 & cid & n1 & A & ->). exists cid, n1. split; [reflexivity|].
-    destruct (nth_decl_F2 _ _ _ _ _ _ _ _ C E A) as [_ X]. exact X.
+    destruct (nth_decl_F2 _ _ _ _ _ _ _ _ C E A) as [_ X]. exact (proj1 X).
   - destruct (nth_decl (e_dtbl e) k) as [[n tb0]|] eqn:E; [|discriminate]. simpl in Hf. injection Hf as <-.
     destruct Ht as (n0 & did & n1 & A & ->). exists did, n1. split; [reflexivity|].
     destruct (nth_decl_F2 _ _ _ _ _ _ _ _ D1 E A) as (_ & X & _). exact X.
+Qed.
+
+Lemma ftys_of_model : forall o e s ty ft t,
+    CF2 o e s -> ftys_of e ty = Some ft -> TYPm s t ty ->
+    exists id n1, t = MRecord id n1 /\ (o <> Some id -> FLDT s id ft).
+Proof.
+  intros o e s ty ft t C Hf Ht. destruct ty as [|k|k|ty']; simpl in *; try discriminate.
+  destruct (nth_decl (e_cls e) k) as [[n ci]|] eqn:E; [|discriminate]. simpl in Hf. injection Hf as <-.
+  destruct Ht as (n0 & cid & n1 & A & ->). exists cid, n1. split; [reflexivity|].
+  destruct (nth_decl_F2 _ _ _ _ _ _ _ _ C E A) as [_ X]. exact (proj2 X).
 Qed.
 
 (** ---- what `index_simple` returns for an identifier / a class value *)
@@ -1013,12 +1107,10 @@ Proof.
       destruct (first_some (frame_lookup (i_name i)) (e_frames e)) as [d|] eqn:Ef.
       2:{ apply (W (i_name i)) in Ef. congruence. }
       destruct (first_some (tframe_lookup (i_name i)) (e_tfr e)) as [ty|] eqn:Et; [|exact I].
-      pose proof (T _ _ _ Hl Et) as X. destruct ty as [|k|k]; [exact I| |];
-        simpl in X; destruct X as (id & lf & -> & A & K & B); unfold sym_type in Ht;
-        pose proof V as (_ & _ & _ & _ & _ & _ & _ & [ext Hle]); rewrite Hle, (nthN_app_some _ _ ext _ _ A) in Ht;
-        (destruct (lf_kind lf); try congruence); injection Ht as <-.
-      all: try exact (TYPm_VR s s1 (lf_ty lf) (TCls k) V B).
-      all: try exact (TYPm_VR s s1 (lf_ty lf) (TDef k) V B).
+      pose proof (T _ _ _ Hl Et) as X. apply TYPS_iff in X. destruct X as [->|(id & lf & -> & A & K & B)]; [exact I|].
+      unfold sym_type in Ht.
+      pose proof V as (_ & _ & _ & _ & _ & _ & _ & [ext Hle]). rewrite Hle, (nthN_app_some _ _ ext _ _ A) in Ht.
+      destruct (lf_kind lf); try congruence; injection Ht as <-; exact (TYPm_VR s s1 (lf_ty lf) ty V B).
     + (* global *)
       assert (Ef : first_some (frame_lookup (i_name i)) (e_frames e) = None) by (now apply (W (i_name i))).
       rewrite Ef. destruct (pos_of (i_name i) (e_defs e)) as [k|] eqn:Ep; [|exact I].
@@ -1087,10 +1179,12 @@ Proof.
   unfold seq. unfold leaf_of, bind, state, get, lift, ret. cbn [fst snd].
   rewrite leaves_add_reference, H2. reflexivity.
 Qed.
+Lemma suf_sty_unk : forall e sf, suf_sty e TUnk sf = TUnk.
+Proof. intros e sf. destruct sf as [|single|i fr]; try reflexivity. destruct single; reflexivity. Qed.
 Lemma sufs_unk_nil : forall f e sufs, forallb resolved (spec_sufs f e TUnk sufs) = true -> spec_sufs f e TUnk sufs = [].
 Proof.
   intros f e sufs. induction sufs as [|sf r IH]; intros H; [reflexivity|].
-  destruct sf; simpl in *; try (now apply IH). discriminate.
+  destruct sf as [|single|i fr]; cbn [spec_sufs] in *; rewrite ?suf_sty_unk in *; try (now apply IH). discriminate.
 Qed.
 
 Lemma sufs_sim : forall sufs f e s t ty,
@@ -1100,17 +1194,21 @@ Lemma sufs_sim : forall sufs f e s t ty,
 Proof.
   induction sufs as [|sf r IH]; intros f e s t ty P Ht HR Hb; [apply Step_refl|].
   cbn [sufs_loop] in *.
-  assert (Hskip : forall o, (forall s0, suf_step sf t s0 = (o, s0)) ->
-                            spec_sufs f e ty (sf :: r) = spec_sufs f e TUnk r ->
+  assert (Hskip : forall o ty', (forall s0, suf_step sf t s0 = (o, s0)) ->
+                            spec_sufs f e ty (sf :: r) = spec_sufs f e ty' r ->
+                            (forall t', o = Some t' -> TYPm s t' ty') -> (o = None -> ty' = TUnk) ->
                             Step s (snd (bind (suf_step sf t) (fun t' => sufs_loop t' r) s)) (spec_sufs f e ty (sf :: r))).
-  { intros o Ho Hs. rewrite Hs in *. unfold bind in *. rewrite Ho in *. destruct o as [t'|]; cbn [fst snd] in *.
-    - apply (IH f e s t' TUnk); auto. exact I.
-    - rewrite (sufs_unk_nil f e r HR). apply Step_refl. }
+  { intros o ty' Ho Hs Hty Hn. rewrite Hs in *. unfold bind in *. rewrite Ho in *. destruct o as [t'|]; cbn [fst snd] in *.
+    - apply (IH f e s t' ty'); auto.
+    - rewrite (Hn eq_refl) in *. rewrite (sufs_unk_nil f e r HR). apply Step_refl. }
   destruct sf as [|single|i fr].
-  - apply (Hskip (match t with MBits _ => Some MBit | _ => None end)); reflexivity.
+  - apply (Hskip (match t with MBits _ => Some MBit | _ => None end) TUnk); try reflexivity; try (intros; exact I).
   - destruct single.
-    + apply (Hskip (element_typ t)); reflexivity.
-    + apply (Hskip (Some t)); reflexivity.
+    + apply (Hskip (element_typ t) (elem_sty ty)); try reflexivity.
+      * intros t' Ho. destruct ty as [|k|k|ty']; try exact I. simpl in Ht. destruct Ht as (t1 & -> & Ht1).
+        simpl in Ho. injection Ho as <-. exact Ht1.
+      * intros Ho. destruct ty as [|k|k|ty']; try reflexivity. simpl in Ht. destruct Ht as (t1 & -> & Ht1). discriminate.
+    + apply (Hskip (Some t) TUnk); try reflexivity; try (intros; exact I); try discriminate.
   - clear Hskip. cbn [spec_sufs] in *. simpl in HR. apply andb_true_iff in HR. destruct HR as [HR1 HR2].
     unfold resolved in HR1; simpl in HR1.
     destruct (fields_of e ty) as [tb|] eqn:Ef; [|discriminate].
@@ -1127,11 +1225,21 @@ Proof.
     set (loc := mkR (current_file s) (r_lo (i_rng i)) (r_hi (i_rng i))) in *.
     pose proof (Step_add_reference s (SyLeaf fid) loc) as S1. set (s1 := snd (add_reference (SyLeaf fid) loc s)) in *.
     assert (E1 : define_loc s (SyLeaf fid) = Some (lf_loc lf)) by (simpl; now rewrite Hlf).
-    change ((at_file f (i_rng i), Some (lf_loc lf)) :: spec_sufs f e TUnk r)
-      with ([(at_file f (i_rng i), Some (lf_loc lf))] ++ spec_sufs f e TUnk r).
+    set (ty2 := suf_sty e ty (SufField i fr)) in *.
+    assert (Hty2 : TYPm s (lf_ty lf) ty2).
+    { unfold ty2. cbn [suf_sty]. destruct (ftys_of e ty) as [ft|] eqn:Eft; [|exact I].
+      destruct (lookup (i_name i) ft) as [x|] eqn:Ex; [|exact I].
+      destruct (ftys_of_model _ e s ty ft _ C Eft Ht) as (id' & n1' & Heq & Hft). injection Heq as <- <-.
+      specialize (Hft Hno (i_name i) fid x Eff Ex). apply TYPS_iff in Hft.
+      destruct Hft as [->|(id2 & lf2 & Hs & Hl2 & _ & Hm)]; [exact I|]. injection Hs as <-.
+      assert (lf2 = lf) by congruence. subst lf2. exact Hm. }
+    change ((at_file f (i_rng i), Some (lf_loc lf)) :: spec_sufs f e ty2 r)
+      with ([(at_file f (i_rng i), Some (lf_loc lf))] ++ spec_sufs f e ty2 r).
     eapply Step_trans.
     + eapply Step_eq; [exact S1|]. rewrite E1. unfold loc, at_file. now rewrite (pre_file f e s P).
-    + apply (IH f e s1 (lf_ty lf) TUnk); auto; [eapply Pre_Step; eassumption|exact I].
+    + destruct S1 as [_ V1 _ _]. apply (IH f e s1 (lf_ty lf) ty2); auto; [eapply Pre_VR; [exact P|exact V1|]|].
+      * unfold s1, add_reference, upd, add_pos; simpl. destruct (rng_empty loc); reflexivity.
+      * exact (TYPm_VR s s1 _ _ V1 Hty2).
 Qed.
 
 Lemma VR_index_simple : forall n sv, resp VR (index_simple n sv).
@@ -1217,9 +1325,8 @@ Proof.
       * destruct (first_some (frame_lookup (i_name i)) (e_frames e)) as [d|] eqn:Ef.
         2:{ apply (W (i_name i)) in Ef. congruence. }
         destruct (first_some (tframe_lookup (i_name i)) (e_tfr e)) as [ty|] eqn:Et; [|congruence].
-        pose proof (T _ _ _ Hl Et) as X. destruct ty as [|k|k]; [congruence| |];
-          simpl in X; destruct X as (id & lf & -> & A & K & B); unfold sym_type;
-          rewrite Hle, (nthN_app_some _ _ ext _ _ A); destruct (lf_kind lf); congruence.
+        pose proof (T _ _ _ Hl Et) as X. apply TYPS_iff in X. destruct X as [->|(id & lf & -> & A & K & B)]; [congruence|].
+        unfold sym_type. rewrite Hle, (nthN_app_some _ _ ext _ _ A). destruct (lf_kind lf); congruence.
       * assert (Ef : first_some (frame_lookup (i_name i)) (e_frames e) = None) by (now apply (W (i_name i))).
         rewrite Ef in Hty. destruct (pos_of (i_name i) (e_defs e)) as [k|] eqn:Ep; [|congruence].
         destruct Hg as [(rid & -> & Hd)|(Hd & lid & ->)].
@@ -1377,7 +1484,7 @@ Section ValueCases.
       eapply Step_trans; [exact S1|]. apply sufs_sim; auto. eapply Pre_Step; eassumption.
     - (* the simple value has no type: the specification knows none either, and the suffixes are not read *)
       assert (Hty : sty_simple e sv = TUnk).
-      { destruct (sty_simple e sv) eqn:Es; [reflexivity| |];
+      { destruct (sty_simple e sv) eqn:Es; [reflexivity| | |];
           exfalso; apply (typed_some n' sv f e s); try assumption; try (rewrite Es; discriminate); now rewrite E. }
       rewrite Hty in *. rewrite (sufs_unk_nil f e sufs HR2), app_nil_r. exact S1.
   Qed.
@@ -1852,7 +1959,10 @@ Proof. intros n. apply (values_agree n). Qed.
 Lemma ty_typed : forall t f e s typ,
     Pre f e s -> fst (index_ty t s) = Some typ -> TYPm (snd (index_ty t s)) typ (sty_of_ty e t).
 Proof.
-  intros t f e s typ P H. destruct t; try exact I.
+  induction t; intros f e s typ P H; try exact I.
+  { (* list *)
+    cbn [sty_of_ty]. simpl in H |- *. unfold bind in *. destruct (index_ty t s) as [[x|] s1] eqn:E; simpl in *; [|discriminate].
+    injection H as <-. exists x. split; [reflexivity|]. specialize (IHt f e s x P). rewrite E in IHt. now apply IHt. }
   cbn [sty_of_ty]. unfold class_ty. destruct (pos_of (i_name i) (e_cls e)) as [k|] eqn:Ep; [|exact I].
   simpl in H |- *. unfold bind, here, state, get in *. simpl in *.
   destruct (find_class s (i_name i)) as [c|] eqn:Ef; [|discriminate].
@@ -1890,7 +2000,7 @@ Proof.
   { change (spec_value f e (Val r [Inner sv []])) with ((spec_simple f e sv ++ []) ++ []) in HR. now rewrite !app_nil_r in HR. }
   destruct (fst (index_simple (S n) sv s)) as [t0|] eqn:E.
   - now apply (simple_typed n sv f e s t0 P HR1).
-  - destruct (sty_simple e sv) eqn:Es; [exact I| |];
+  - destruct (sty_simple e sv) eqn:Es; [exact I| | |];
       exfalso; apply (typed_some n sv f e s); try assumption; rewrite Es; discriminate.
 Qed.
 
